@@ -75,3 +75,9 @@ def same(a, b):
     if isinstance(a, (list, dict, set)) or hasattr(a, '__dict__'):
         return a is b
     return a == b
+
+
+def duplicate_free(l):
+    """concrete reading of the spec predicate duplicate_free (identity for objects, equality for scalars)"""
+    keys = [id(x) if hasattr(x, '__dict__') else x for x in l]
+    return len(set(keys)) == len(keys)
